@@ -45,13 +45,28 @@ THEOREMS (all closed under the global context, no axioms)
                         read in a nested graph belongs to it or to an enclosing graph), all depths:
                         analyze = Ok u, keys u = nested graphs, u[S] = {v | read in S or deeper, v.graph not
                         S nor nested in S}.
-  C18_semantics_partial for every T/interp/environments: on an SSA, topologically sorted source the
-                        extracted node list computes the source's values on every needed value, assuming the
-                        start environment agrees with the source on needed inputs and producer-less values.
-                        PARTIAL: discharging that assumption from "extract returned Ok" needs C18_inits +
-                        C18_ok_bounded + C18_unbounded_captured_raises assembled at the level of `extract`
-                        (id<->node lookups, heap producer table vs node list); the three facts are proved,
-                        the assembly is not.
+  C18_semantics         (extract level, full) for every T / interp / source environment e0: if extract = Ok, the
+                        source's own nodes are SSA and topologically sorted (captures included), values defined in
+                        nested bodies do not belong to the parent graph and the outputs do, then running the
+                        extracted node list from ANY e1 binding the inputs to the source's values and the
+                        initializers to the source's tensors gives the source's values at the outputs. The former
+                        environment-agreement hypothesis is discharged from extract = Ok (C18_inits, C18_ok_bounded,
+                        Proofs5.extract_ok_captures_bound). C18_semantics_abstract = region-level core.
+                        (Writing the non-vacuity Example exposed that the first SSA hypothesis "prod v = Some n <->
+                        n in gnodes and ..." was unsatisfiable as soon as a nested body contains a node; it is now
+                        restricted to the source's own nodes.)
+  C18_semantics_nested  same with nested bodies evaluated recursively (Proofs7.den_n/den_g: a body denotes
+                        "bind its inputs, run its nodes in the enclosing environment, return its outputs", any
+                        depth; control operators uninterpreted, only required to respect pointwise equality of
+                        body functions). Extra hypotheses: node outputs belong to the parent graph; what a body
+                        reads from the parent graph is read by one of its nodes (a nested graph whose output
+                        list names a parent value directly is NOT covered, nor seen by
+                        _collect_all_external_values); both runs start from the same environment outside the
+                        parent graph (nested initializers, outer scopes).
+  C18_function_inits / C18_view_needed_node_outside_raises / C18_refs_checked: the source-kind differences
+                        (Function: listed input initializers not recorded; GraphView: no ownership check, a needed
+                        node outside the view raises ValueError/KeyError; Graph/Function: by-object refs must
+                        belong to the graph; names must be known to create_value_mapping).
   C18_independent (DESIGN) is C13's theorem; here it is checked by the oracle only (no shared Graph/Node/
   Value object between result and source).
 
@@ -1039,8 +1054,8 @@ def run(ck) -> None:
                            "by-object/by-name. Non-trivial: extract returned a graph with at least one node, or the "
                            "capture analysis returned a non-empty capture set; distinct by (graph, cut).")
     ck.prove()
-    ck.notes.append("C18_semantics is proved as C18_semantics_partial (see Property.v); C18_exact, C18_inits, "
-                    "C18_unbounded_raises, C18_unbounded_captured_raises, C18_captures_exact are full strength")
+    ck.notes.append("all theorems of Property.v are full strength; C18_semantics_nested does not cover a nested graph "
+                    "whose output list names a parent-graph value directly (stated as a hypothesis)")
 
     groups: list[dict] = []
     # 1. corpus
